@@ -580,6 +580,21 @@ def run(out, tier, scratch):
         judge(cfg, tree, r, f"dask {sched} case {i}" + (" (second compute of the same graph)" if again else ""),
               [cfg, partitions, subs, sched, again, sink])
 
+    # two graphs that differ only in their data, computed by one dask.compute call
+    trng = core.rng("c06-together")
+    for i in range(6 if tier == "quick" else 60):
+        n = trng.choice([1, 2, 3])
+        sa = [[trng.choice([1, 2, 5, 9]) for _ in range(trng.choice([1, 2]))] for _ in range(n)]
+        sb = [[trng.choice([1, 3, 7]) for _ in range(len(q))] for q in sa] if i % 2 == 0 else \
+             [[trng.choice([1, 3, 7]) for _ in range(trng.choice([1, 2]))] for _ in range(trng.choice([1, 2, 3]))]
+        sched = "threads" if i % 3 == 2 else "synchronous"
+        ok, detail, _ = p_together(sa, sb, sched)
+        out.count("dask:two-graphs-computed-together")
+        out.case(("together", json.dumps(sa), json.dumps(sb)), True)
+        if not ok and "together" not in found:
+            found["together"] = True
+            out.violation("c06:together", detail, {"predicate": "together", "args": [sa, sb, sched], "observed": detail})
+
     fails, log = core.coq_eval_failures(["Base.Result", "Model.Mpu", "Model.MpuCases"], "case", "check", cases, scratch,
                                         shard=60, tag="mpu")
     detail = ""
@@ -632,7 +647,42 @@ def p_dask(cfg, partitions, subs, sched, again, sink=False):
     return (not bad), "; ".join(f"{k}: {d}" for k, d in bad), [k for k, _ in bad]
 
 
+def p_together(sizes_a, sizes_b, scheduler="synchronous"):
+    """two uploads that differ only in their data (no writer: the bytes are returned), computed in ONE dask.compute
+    call, each return their own header+chunks+footer"""
+    import dask
+    import dask.bag
+    from odc.geo.cog import _mpu as M
+
+    def bag(sizes, salt):
+        parts, pos, cid = [], 0, 0
+        for part in sizes:
+            q = []
+            for sz in part:
+                q.append((bytes((salt + pos + i) % 251 for i in range(sz)), cid))
+                pos += sz
+                cid += 1
+            parts.append(q)
+        return parts, dask.bag.from_delayed([dask.delayed(list, pure=False)(q) for q in parts])
+
+    pa, ba = bag(sizes_a, 0)
+    pb, bb = bag(sizes_b, 100)
+    ra, rb = M.mpu_write(ba), M.mpu_write(bb)
+    xa, xb = dask.compute(ra, rb, scheduler=scheduler)
+    wa, wb = (b"".join(d for q in pp for d, _ in q) for pp in (pa, pb))
+    ga, gb = bytes(xa.data), bytes(xb.data)
+    ok = ga == wa and gb == wb
+    return ok, ("each upload returned its own bytes" if ok else
+                f"computed together: first returned {len(ga)} bytes ({'its own' if ga == wa else 'NOT its own'}), "
+                f"second returned {len(gb)} bytes ({'its own' if gb == wb else 'the first one\'s' if gb == wa else 'NOT its own'}); "
+                f"same dask key: {ra.key == rb.key}"), ["together"]
+
+
 def replay(rp) -> int:
+    if rp.get("predicate") == "together":
+        ok, detail, _ = p_together(*rp["args"])
+        print(f"replay two uploads computed together {json.dumps(rp['args'])}: {'holds' if ok else 'FAILS: ' + detail}")
+        return 0 if ok else 1
     if rp.get("predicate") == "dask":
         ok, detail, _ = p_dask(*rp["args"])
         print(f"replay mpu_write through dask {json.dumps(rp['args'])}: {'holds' if ok else 'FAILS: ' + detail}")
